@@ -4,19 +4,44 @@ import itertools
 ID = "C08"
 LEVEL = "exploration"
 FLAVOUR = "plain"
-TIMEOUT = 600
-RULE = ("cell = (kind of partition column 1) x (kind of partition column 2 or none; a third int column in thorough) x "
-        "scheme {hive, drill}; inside: key subsets of cardinality 1..3 from the kind's pool x assignment programs "
-        "(all combinations present, some combinations empty, keys appearing only in a later row group) x "
-        "row_group_offsets {None, 2, [0,3]} x value-column kind (6) x null keys {no, some}; oracle: every part file "
-        "lies in the directory named by its rows' key text and holds only such rows; the dataset read back equals "
-        "the input restricted to rows with non-null keys as a multiset, partition columns carrying the original "
-        "values and value kinds (hive) / the key text as positional dirN columns (drill); pf.cats lists exactly the "
-        "keys used; non-trivial = a dataset with >= 1 row compared")
+TIMEOUT = 1800
+RULE = ("cell = (kind of partition column 1: int64, float64, bool, datetime64[us], object text, categorical text / int; "
+        "wave 3: datetime64[ns] with nanosecond keys, datetime64[s] outside the ns range, zone-aware datetime, pandas "
+        "'str' dtype, nullable Int64, uint64 beyond 2**63, text with unusual but legal path characters incl. a "
+        "backslash) x (kind of partition column 2 or none; a third int column in thorough) x scheme {hive, drill}; "
+        "plus name cells: 5 families of partition column names (blank / dash / dot / non-ASCII, one name a prefix of "
+        "the other in both directions, hive names dir1/dir0) x kinds x hive; "
+        "inside: key subsets of cardinality 1..3 from the kind's pool (level-2 keys rotate through their pool) x "
+        "assignment programs (all combinations present, some combinations empty, keys appearing only in a later row "
+        "group) x row_group_offsets {None, 2, [0,3]} x value-column kind (6, and 3 kinds holding NULLs) x null keys "
+        "{none, one row of level 1, one row of level 2, the whole first row group} x frame index labels {range, "
+        "duplicated, shuffled} x partition_on order {frame order with the partition columns last, reversed with a "
+        "partition column first}; for drill datasets with a text level every order (<= 3 directories: all "
+        "permutations, else all rotations of the sorted and of the reversed list) in which the directory names can "
+        "be met when the dataset is opened; oracle: every part file lies in the directory named by its rows' key "
+        "text and holds only such rows; the dataset read back equals the input restricted to rows with non-null "
+        "keys as a multiset, partition columns carrying the original names, values and value kinds (hive: int / "
+        "float / bool / text / timestamp per value, dtype kind and zone-awareness of the column) / the key text as "
+        "positional dirN columns (drill); pf.cats lists exactly the keys used; non-trivial = a dataset with >= 1 "
+        "row compared")
 ASSUMPTIONS = ["keys whose text coerces to the same value (\"0.7\" / \".7\") and keys containing '/' or '=' are excluded "
-               "(documented limitation)", "row order is not compared"]
+               "(documented limitation)", "row order is not compared",
+               "the order in which directory names are met on opening is explored by substituting "
+               "fastparquet.api._strip_path_tail (a set in the library: the order depends on the hash seed)",
+               "float32 keys (directory text is the float64 text) and timedelta keys are outside the enumerated space"]
 
 PKINDS = ["int", "float", "bool", "dt", "str", "cat_str", "cat_int"]
+# wave 3: kinds inside the quantifier's families that the first alphabet never produced
+XKINDS = ["dt_ns", "dt_s", "dt_tz", "str_pd", "Int64", "uint64", "str_bs"]
+STRISH = ("str", "str_pd", "str_bs")
+NOT_NULLABLE = ("int", "bool", "uint64")
+# partition column names (level 1, level 2, level 3)
+NAMES = [("my col", "k-2", "z 3"), ("year", "y", "ye"), ("a", "ab", "abc"), ("é", "x.y", "ü"),
+         ("dir1", "dir0", "dir2")]
+# dtype kinds (numpy letter) the reconstructed hive column may have
+DTYPE_KINDS = {"int": "iu", "Int64": "iu", "uint64": "iu", "cat_int": "iu", "float": "f", "bool": "b",
+               "dt": "M", "dt_ns": "M", "dt_s": "M", "dt_tz": "M",
+               "str": "OUT", "str_pd": "OUT", "str_bs": "OUT", "cat_str": "OUT"}
 
 
 def key_pool(kind):
@@ -26,7 +51,7 @@ def key_pool(kind):
         return [0, -3, 2 ** 53 + 1, 1000000, 2 ** 63 - 1, 17, -2 ** 63, -(2 ** 53 + 3)]
     if kind == "float":
         # incl. values whose text uses exponent notation or needs 17 significant digits
-        return [0.5, 1.0, 0.1, 1e10, 1e-07, -2.25, 1.7976931348623157e308, 123456789.12345679]
+        return [0.5, 1.0, 0.1, 1e10, 1e-07, -2.25, 1.7976931348623157e308, 123456789.12345679, 0.0, float("inf")]
     if kind == "bool":
         return [True, False]
     if kind == "dt":
@@ -39,19 +64,59 @@ def key_pool(kind):
         return ["u", "v", "w"]
     if kind == "cat_int":
         return [10, 20, 30]
+    if kind == "dt_ns":
+        # neighbours that differ only in the nanosecond digit; the bounds of the ns range
+        return [pd.Timestamp("2020-01-01 00:00:00.000000001"), pd.Timestamp("2020-01-01 00:00:00.000000002"),
+                pd.Timestamp("2020-01-01"), pd.Timestamp("1999-12-31 23:59:59.999999999"),
+                pd.Timestamp("2262-04-11 23:47:16.854775807"), pd.Timestamp("1677-09-21 00:12:43.145224193")]
+    if kind == "dt_s":
+        return [pd.Timestamp("2020-01-01"), pd.Timestamp("1500-01-01"), pd.Timestamp("1999-12-31 23:59:59"),
+                pd.Timestamp("3000-06-15 12:00:00")]
+    if kind == "dt_tz":
+        # naive wall times, localised to Europe/Paris (winter +01:00, summer +02:00)
+        return [pd.Timestamp("2020-01-01"), pd.Timestamp("2020-07-02 00:00:00.500"), pd.Timestamp("1999-12-31 23:59:59"),
+                pd.Timestamp("2021-06-15 12:00:00.000001")]
+    if kind == "str_pd":
+        return ["1", "True", "a", "1.5", "nan", "2020-01-01", " x y", "é", "a.b"]
+    if kind == "Int64":
+        return [0, -3, 2 ** 53 + 1, 2 ** 63 - 1]
+    if kind == "uint64":
+        return [0, 2 ** 63, 2 ** 64 - 1, 17]
+    if kind == "str_bs":
+        # legal POSIX path segments with characters that are special elsewhere (URL, Windows, shells)
+        return ["a%20b", "x#y", "q?z", "a\\b", "a:b", "A", "tr.", "a"]
     raise KeyError(kind)
 
 
 def points(tier):
     pts = []
+    thorough = tier == "thorough"
     for k1 in PKINDS:
-        for k2 in [None] + (PKINDS if tier == "thorough" else ["int", "str", "dt"]):
+        for k2 in [None] + (PKINDS if thorough else ["int", "str", "dt"] + (["cat_str"] if k1 == "float" else [])):
             for scheme in ("hive", "drill"):
                 pts.append({"k1": k1, "k2": k2, "scheme": scheme, "tier": tier, "k3": False})
-    if tier == "thorough":
+    if thorough:
         for k1 in ("int", "str", "dt"):
             for k2 in ("float", "bool", "cat_str"):
                 pts.append({"k1": k1, "k2": k2, "scheme": "hive", "tier": tier, "k3": True})
+    # wave 3 kinds at level 1 ...
+    for k1 in XKINDS:
+        for k2 in ([None, "int", "str"] if thorough else [None]):
+            for scheme in ("hive", "drill"):
+                pts.append({"k1": k1, "k2": k2, "scheme": scheme, "tier": tier, "k3": False})
+    # ... and at level 2 (keys arrive as elements of a group-by tuple)
+    for k1 in (("int", "str") if thorough else ("int",)):
+        for k2 in XKINDS:
+            for scheme in (("hive", "drill") if thorough else ("hive",)):
+                pts.append({"k1": k1, "k2": k2, "scheme": scheme, "tier": tier, "k3": False})
+    # partition column names
+    for ni in range(len(NAMES)):
+        for k1 in (("int", "str", "dt", "float", "bool", "cat_str") if thorough else ("int", "str")):
+            for k2 in ((None, "int", "str", "dt") if thorough else (None, "str")):
+                if not thorough and (k1, k2) == ("str", None):
+                    continue
+                pts.append({"k1": k1, "k2": k2, "scheme": "hive", "tier": tier, "k3": thorough and k2 == "int",
+                            "names": ni})
     return pts
 
 
@@ -80,6 +145,34 @@ def key_series(kind, keys, n, name):
         return pd.Series(pd.Categorical(vals, categories=["u", "unused", "v", "w"]), name=name)
     if kind == "cat_int":
         return pd.Series(pd.Categorical(vals, categories=[10, 20, 30, 40]), name=name)
+    if kind == "dt_ns":
+        return pd.Series(pd.DatetimeIndex(vals).astype("datetime64[ns]"), name=name)
+    if kind == "dt_s":
+        return pd.Series(pd.DatetimeIndex(vals).astype("datetime64[s]"), name=name)
+    if kind == "dt_tz":
+        return pd.Series(pd.DatetimeIndex(vals).astype("datetime64[us]"), name=name).dt.tz_localize("Europe/Paris")
+    if kind == "str_pd":
+        return pd.Series(vals, dtype="str", name=name)
+    if kind == "Int64":
+        return pd.Series(vals, dtype="Int64", name=name)
+    if kind == "uint64":
+        return pd.Series(vals, dtype="uint64", name=name)
+    if kind == "str_bs":
+        return pd.Series(vals, dtype=object, name=name)
+    raise KeyError(kind)
+
+
+def null_of(kind):
+    """the missing-value marker of a key kind"""
+    import numpy as np
+    import pandas as pd
+    if kind in ("str", "str_bs", "str_pd"):
+        return None
+    if kind in ("dt", "dt_ns", "dt_s", "dt_tz"):
+        return pd.NaT
+    if kind == "Int64":
+        return pd.NA
+    return np.nan
 
 
 def key_text(scheme, v):
@@ -95,18 +188,55 @@ def canon_key(v):
     return O.canon_cell(v)
 
 
+def vclass(x):
+    """value kind of a canonical cell"""
+    if x is None:
+        return "null"
+    if isinstance(x, bool):
+        return "bool"
+    if isinstance(x, int):
+        return "int"
+    if isinstance(x, float):
+        return "float"
+    if isinstance(x, str):
+        return "str"
+    if isinstance(x, tuple) and x and x[0] == "ts":
+        return "ts"
+    return type(x).__name__
+
+
+def dir_orders(dirs, thorough):
+    """the orders in which the directory names are presented: all permutations of few, else all rotations of the
+    sorted list and of its reverse"""
+    base = sorted(dirs)
+    if len(base) <= (4 if thorough else 3):
+        return [list(p) for p in itertools.permutations(base)]
+    out = []
+    for b in (base, base[::-1]):
+        for i in range(len(b)):
+            o = b[i:] + b[:i]
+            if o not in out:
+                out.append(o)
+    return out
+
+
 def run(p):
     import os
+    import shutil
     import pandas as pd
     import numpy as np
     import fastparquet
+    import fastparquet.api as fapi
     from mc.scratch import scratch
     from mc import alphabets as A, oracles as O
     k1, k2, scheme, thorough = p["k1"], p["k2"], p["scheme"], p["tier"] == "thorough"
+    slim = "names" in p                      # name cells: a slice of the inner lattice
+    names = NAMES[p["names"]] if slim else ("p1", "p2", "p3")
+    xcell = k1 in XKINDS or k2 in XKINDS     # wave 3 kinds: fewer value kinds in thorough
     sigs = {}
     detail = [""]
     ctx = {}
-    datasets = 0
+    counts = {"datasets": 0, "order_reads": 0}
 
     def bad(symptom, msg, **extra):
         s = {"k1": k1, "k2": k2, "scheme": scheme, "symptom": symptom}
@@ -127,9 +257,79 @@ def run(p):
             if len(set(map(repr, sub))) == len(sub) and sub not in subsets1:
                 subsets1.append(sub)
     pool2 = key_pool(k2) if k2 else None
-    valkinds = ["int64", "str_obj", "float64", "cat_str", "Int64", "dt_ns"] if thorough else ["int64", "cat_str"]
+    if thorough:
+        valkinds = [("int64", "none"), ("str_obj", "none"), ("cat_str", "none")] if (xcell or slim) else \
+                   [("int64", "none"), ("str_obj", "none"), ("float64", "none"), ("cat_str", "none"), ("Int64", "none"),
+                    ("dt_ns", "none")]
+        valkinds += [("str_obj", "alt"), ("Int64", "alt"), ("float64", "alt")]
+    else:
+        valkinds = [("int64", "none"), ("cat_str", "none")]
     d = scratch()
-    for sub1 in subsets1:
+    path = os.path.join(d, "ds")
+
+    def verify(pf, out, what, df, keep, exp_rows, expval, parts, kinds, **okey):
+        """the read-back oracle: row multiset, value alignment, partition columns (names, values, kinds), cats"""
+        rids = O.series_to_list(out["rid"])
+        if sorted(rids) != sorted(exp_rows):
+            lost = sorted(set(exp_rows) - set(rids))
+            dup = sorted({r for r in rids if rids.count(r) > 1})
+            bad("rows", "%s: row ids read %r, written (non-null keys) %r" % (what, sorted(rids), sorted(exp_rows)),
+                kind="lost" if lost else ("duplicated" if dup else "extra"), **okey)
+            return False
+        vals = O.series_to_list(out["val"])
+        if any(not O.same_value(v, expval[r]) for r, v in zip(rids, vals)):
+            bad("values", "%s: value column misaligned with rows" % what, **okey)
+            return False
+        cnames = parts if scheme == "hive" else ["dir%d" % i for i in range(len(parts))]
+        missing = [c for c in cnames if c not in out.columns]
+        if missing:
+            bad("partition_columns", "%s: columns %r, expected partition columns %r" % (what, list(out.columns), cnames),
+                **okey)
+            return False
+        for ci, (c, kind) in enumerate(zip(cnames, kinds)):
+            got = O.series_to_list(out[c])
+            value_ok = True
+            for r, g in zip(rids, got):
+                e = exp_rows[r][ci]
+                if scheme == "drill":
+                    # value-only layout: the directory level carries the key text (possibly re-typed by parsing)
+                    et = key_text(scheme, keep.loc[keep["rid"] == r, parts[ci]].iloc[0])
+                    coerced = False
+                    if isinstance(g, tuple) and g[0] == "ts":
+                        # documented: drill directory names are coerced to numbers / dates when they parse
+                        try:
+                            coerced = pd.Timestamp(et).value == g[1]
+                        except Exception:
+                            coerced = False
+                    if str(g) != et and not O.same_value(g, e) and not coerced:
+                        bad("partition_value", "%s: %s of row %d is %r, directory text %r" % (what, c, r, g, et), col=ci,
+                            pk=kind, **okey)
+                        break
+                else:
+                    if not O.same_value(g, e) or vclass(e) != vclass(g):
+                        bad("partition_value", "%s: %s of row %d came back as %r (%s), written %r (%s)" % (
+                            what, c, r, g, type(g).__name__, e, type(e).__name__), col=ci, pk=kind, **okey)
+                        value_ok = False
+                        break
+            if scheme == "hive" and len(out) and value_ok:
+                # the column's dtype agrees with the kind of its values
+                cd = out[c].dtype
+                if isinstance(cd, pd.CategoricalDtype):
+                    cd = cd.categories.dtype
+                letter = getattr(cd, "kind", "O")
+                aware = getattr(cd, "tz", None) is not None
+                if letter not in DTYPE_KINDS[kind] or aware != (kind == "dt_tz"):
+                    bad("partition_dtype", "%s: %s came back with dtype %s, written as %s" % (what, c, cd, df[parts[ci]].dtype),
+                        col=ci, pk=kind, **okey)
+        if scheme == "hive":
+            for ci, c in enumerate(parts):
+                want = sorted({repr(v[ci]) for v in exp_rows.values()})
+                got = sorted({repr(canon_key(v)) for v in pf.cats.get(c, [])})
+                if got != want:
+                    bad("cats", "%s: pf.cats[%s]=%r, keys used %r" % (what, c, got, want), col=ci, pk=kinds[ci], **okey)
+        return True
+
+    for si, sub1 in enumerate(subsets1):
         for prog in ("cycle", "blocks", "late"):
             # assignment of keys to the 6 rows
             if prog == "cycle":
@@ -138,130 +338,181 @@ def run(p):
                 a1 = [sub1[min(i * len(sub1) // n, len(sub1) - 1)] for i in range(n)]
             else:   # a key that appears only in the last rows (later row group)
                 a1 = [sub1[0]] * (n - 2) + [sub1[-1]] * 2
+            sub2 = None
             if k2:
-                sub2 = pool2[:2]
+                # level-2 keys rotate through their pool with the level-1 subset
+                sub2 = [pool2[(si + j) % len(pool2)] for j in range(2)]
                 a2 = [sub2[(i // 2) % len(sub2)] for i in range(n)] if prog != "late" else [sub2[0]] * 5 + [sub2[-1]]
             for rgo in ((None, 2, [0, 3]) if thorough else (None, [0, 3])):
-                for vk in valkinds:
-                    for nullkeys in (False, True):
-                        if nullkeys and k1 in ("int", "bool"):
+                # null keys: none / row 1 of level 1 / row 4 of level 2 / the whole first row group at level 1
+                nullmodes = [None]
+                if k1 not in NOT_NULLABLE:
+                    nullmodes.append("p1r1")
+                    if rgo == [0, 3] and prog != "blocks":
+                        nullmodes.append("chunk0")
+                if k2 and k2 not in NOT_NULLABLE:
+                    nullmodes.append("p2r4")
+                for vk, vnull in valkinds + ([] if thorough else [(("str_obj", "Int64")[si % 2], "alt")]):
+                    for nullmode in nullmodes:
+                        if not thorough:
+                            if nullmode and prog != "cycle":
+                                continue
+                            if nullmode == "p2r4" and (rgo is not None or vk != "int64"):
+                                continue
+                            if vk != "int64" and rgo is not None:
+                                continue
+                            if vnull != "none" and (prog != "cycle" or nullmode):
+                                continue
+                        elif (vnull != "none" and (rgo is not None or nullmode)) or \
+                                (nullmode in ("chunk0", "p2r4") and (vk != "int64" or rgo == 2)):
                             continue
-                        if not thorough and ((nullkeys and prog != "cycle") or (vk != "int64" and rgo is not None)):
+                        if slim and not (vk == "int64" and vnull == "none" and not nullmode and (
+                                (prog == "cycle" and rgo is None) or (prog == "late" and rgo == [0, 3]) or thorough)):
                             continue
-                        ctx.clear()
-                        ctx.update({"card": len(sub1), "prog": prog, "nullkeys": nullkeys})
-                        s1 = key_series(k1, a1, n, "p1")
-                        df = pd.DataFrame({"rid": list(range(n)), "val": A.series(vk, n, "none", 0, "val"), "p1": s1})
-                        parts = ["p1"]
-                        if k2:
-                            df["p2"] = key_series(k2, a2, n, "p2")
-                            parts.append("p2")
-                        if p["k3"]:
-                            df["p3"] = [7, 7, 8, 8, 7, 8]
-                            parts.append("p3")
-                        if nullkeys:
-                            df.loc[1, "p1"] = None if k1 in ("str",) else (np.nan if k1 == "float" else pd.NaT if k1 == "dt" else np.nan)
-                        path = os.path.join(d, "ds")
-                        import shutil
-                        shutil.rmtree(path, ignore_errors=True)
-                        what = "%s keys1=%r%s prog=%s rgo=%r val=%s nullkeys=%s" % (
-                            scheme, sub1, (" x %s" % k2) if k2 else "", prog, rgo, vk, nullkeys)
-                        try:
-                            fastparquet.write(path, df, file_scheme=scheme, partition_on=parts, row_group_offsets=rgo,
-                                              write_index=False)
-                        except Exception as e:
-                            bad("write_raised", "%s: %s: %s" % (what, type(e).__name__, str(e)[:150]), exc=type(e).__name__)
-                            continue
-                        datasets += 1
-                        keep = df[df[parts].notnull().all(axis=1)]
-                        exp_rows = {}
-                        for i in range(len(keep)):
-                            exp_rows[int(keep["rid"].iloc[i])] = tuple(canon_key(keep[c].iloc[i]) for c in parts)
-                        expval = dict(zip(O.series_to_list(keep["rid"]), O.series_to_list(keep["val"])))
-                        # (2) read back
-                        try:
-                            pf = fastparquet.ParquetFile(path)
-                            out = pf.to_pandas()
-                        except Exception as e:
-                            bad("read_raised", "%s: %s: %s" % (what, type(e).__name__, str(e)[:150]), exc=type(e).__name__)
-                            continue
-                        rids = O.series_to_list(out["rid"])
-                        if sorted(rids) != sorted(exp_rows):
-                            lost = sorted(set(exp_rows) - set(rids))
-                            dup = sorted({r for r in rids if rids.count(r) > 1})
-                            bad("rows", "%s: row ids read %r, written (non-null keys) %r" % (what, sorted(rids), sorted(exp_rows)),
-                                kind="lost" if lost else ("duplicated" if dup else "extra"))
-                            continue
-                        vals = O.series_to_list(out["val"])
-                        if any(not O.same_value(v, expval[r]) for r, v in zip(rids, vals)):
-                            bad("values", "%s: value column misaligned with rows" % what)
-                            continue
-                        names = parts if scheme == "hive" else ["dir%d" % i for i in range(len(parts))]
-                        missing = [c for c in names if c not in out.columns]
-                        if missing:
-                            bad("partition_columns", "%s: columns %r, expected partition columns %r" % (what, list(out.columns), names))
-                            continue
-                        for ci, (c, kind) in enumerate(zip(names, [k1, k2, "int"][:len(parts)])):
-                            got = O.series_to_list(out[c])
-                            for r, g in zip(rids, got):
-                                e = exp_rows[r][ci]
-                                if scheme == "drill":
-                                    # value-only layout: the directory level carries the key text (possibly re-typed by parsing)
-                                    et = key_text(scheme, keep.loc[keep["rid"] == r, parts[ci]].iloc[0])
-                                    coerced = False
-                                    if isinstance(g, tuple) and g[0] == "ts":
-                                        # documented: drill directory names are coerced to numbers / dates when they parse
-                                        try:
-                                            coerced = pd.Timestamp(et).value == g[1]
-                                        except Exception:
-                                            coerced = False
-                                    if str(g) != et and not O.same_value(g, e) and not coerced:
-                                        bad("partition_value", "%s: %s of row %d is %r, directory text %r" % (what, c, r, g, et), col=ci, pk=kind)
-                                        break
-                                else:
-                                    if not O.same_value(g, e) or (isinstance(e, str) != isinstance(g, str)) or (isinstance(e, bool) != isinstance(g, bool)):
-                                        bad("partition_value", "%s: %s of row %d came back as %r (%s), written %r (%s)" % (
-                                            what, c, r, g, type(g).__name__, e, type(e).__name__), col=ci, pk=kind)
-                                        break
-                        # (1) placement of every part file
-                        for root, dirs, files_ in os.walk(path):
-                            for f in files_:
-                                if not f.startswith("part."):
-                                    continue
-                                rel = os.path.relpath(root, path)
-                                segs = [] if rel == "." else rel.split(os.sep)
-                                try:
-                                    sub = fastparquet.ParquetFile(os.path.join(root, f)).to_pandas()
-                                except Exception as e:
-                                    bad("part_unreadable", "%s: %s/%s: %s" % (what, rel, f, e))
-                                    continue
-                                for r in O.series_to_list(sub["rid"]):
-                                    if r not in exp_rows:
-                                        bad("placement", "%s: row %d with a null key is stored in %s" % (what, r, rel))
+                        if not thorough and k2 in XKINDS and vk == "cat_str":
+                            continue    # level-2 cells of the wave 3 kinds: integer and NULL-holding value columns only
+                        # frame index labels (dropped on write): duplicated / shuffled labels on the
+                        # categorical-value datasets of the blocks / late programs
+                        idx = "range"
+                        if vk == "cat_str" and not nullmode and (rgo is None or thorough):
+                            idx = {"blocks": "dup", "late": "shuffled"}.get(prog, "range")
+                        # partition_on against the frame's column order, partition column first in the frame
+                        orders = ["fwd"]
+                        if prog == "late" and vk == "int64" and vnull == "none" and not nullmode:
+                            orders = ["fwd", "rev"] if thorough else (["rev"] if rgo == [0, 3] else ["fwd"])
+                        for order in orders:
+                            ctx.clear()
+                            ctx.update({"card": len(sub1), "prog": prog, "nullkeys": bool(nullmode)})
+                            if nullmode and nullmode != "p1r1":
+                                ctx["nullmode"] = nullmode
+                            if idx != "range":
+                                ctx["idx"] = idx
+                            if order != "fwd":
+                                ctx["order"] = order
+                            if vnull != "none":
+                                ctx["valnull"] = vk
+                            if slim:
+                                ctx["names"] = p["names"]
+                            if any(isinstance(v, str) and "\\" in v for v in list(sub1) + list(sub2 or [])):
+                                ctx["backslash"] = True
+                            pcols = [(names[0], k1, key_series(k1, a1, n, names[0]))]
+                            if k2:
+                                pcols.append((names[1], k2, key_series(k2, a2, n, names[1])))
+                            if p["k3"]:
+                                pcols.append((names[2], "int", pd.Series([7, 7, 8, 8, 7, 8], dtype="int64", name=names[2])))
+                            data = {"rid": pd.Series(list(range(n))), "val": A.series(vk, n, vnull, 0, "val")}
+                            if order == "rev":
+                                # frame: first partition column in front, the others last; partition_on: reversed
+                                cols = [pcols[0]] + [("rid", None, data["rid"]), ("val", None, data["val"])] + pcols[1:]
+                                pcols = pcols[::-1]
+                            else:
+                                cols = [("rid", None, data["rid"]), ("val", None, data["val"])] + pcols
+                            df = pd.DataFrame({c[0]: c[2] for c in cols})
+                            parts = [c[0] for c in pcols]
+                            kinds = [c[1] for c in pcols]
+                            if nullmode == "p1r1":
+                                df.iloc[[1], df.columns.get_loc(names[0])] = null_of(k1)
+                            elif nullmode == "chunk0":
+                                df.iloc[[0, 1, 2], df.columns.get_loc(names[0])] = null_of(k1)
+                            elif nullmode == "p2r4":
+                                df.iloc[[4], df.columns.get_loc(names[1])] = null_of(k2)
+                            if idx == "dup":
+                                df.index = [0, 0, 0, 1, 1, 1]
+                            elif idx == "shuffled":
+                                df.index = [5, 3, 1, 4, 2, 0]
+                            shutil.rmtree(path, ignore_errors=True)
+                            what = "%s %s keys1=%r%s prog=%s rgo=%r val=%s%s nullkeys=%s idx=%s" % (
+                                scheme, "/".join(parts), sub1, (" x %s %r" % (k2, sub2)) if k2 else "", prog, rgo, vk,
+                                "" if vnull == "none" else "+NULLs", nullmode, idx)
+                            try:
+                                fastparquet.write(path, df, file_scheme=scheme, partition_on=parts, row_group_offsets=rgo,
+                                                  write_index=False)
+                            except Exception as e:
+                                bad("write_raised", "%s: %s: %s" % (what, type(e).__name__, str(e)[:150]), exc=type(e).__name__)
+                                continue
+                            counts["datasets"] += 1
+                            keep = df[df[parts].notnull().all(axis=1)]
+                            exp_rows = {}
+                            for i in range(len(keep)):
+                                exp_rows[int(keep["rid"].iloc[i])] = tuple(canon_key(keep[c].iloc[i]) for c in parts)
+                            expval = dict(zip(O.series_to_list(keep["rid"]), O.series_to_list(keep["val"])))
+                            # (2) read back
+                            try:
+                                pf = fastparquet.ParquetFile(path)
+                                out = pf.to_pandas()
+                            except Exception as e:
+                                bad("read_raised", "%s: %s: %s" % (what, type(e).__name__, str(e)[:150]), exc=type(e).__name__)
+                                continue
+                            if not verify(pf, out, what, df, keep, exp_rows, expval, parts, kinds):
+                                continue
+                            # (1) placement of every part file
+                            dirs = set()
+                            on_disk = []
+                            for root, dirs_, files_ in os.walk(path):
+                                for f in files_:
+                                    if not f.startswith("part."):
                                         continue
-                                    sel = keep["rid"] == r
-                                    want = [("%s=%s" % (c, key_text(scheme, keep.loc[sel, c].iloc[0]))) if scheme == "hive"
-                                            else key_text(scheme, keep.loc[sel, c].iloc[0]) for c in parts]
-                                    if segs != want:
-                                        bad("placement", "%s: row %d lies in %r, its keys name %r" % (what, r, segs, want))
-                        # (3) cats
-                        if scheme == "hive":
-                            for ci, c in enumerate(parts):
-                                want = sorted({repr(v[ci]) for v in exp_rows.values()})
-                                got = sorted({repr(canon_key(v)) for v in pf.cats.get(c, [])})
-                                if got != want:
-                                    bad("cats", "%s: pf.cats[%s]=%r, keys used %r" % (what, c, got, want), col=ci,
-                                        pk=[k1, k2, "int"][ci])
+                                    rel = os.path.relpath(root, path)
+                                    segs = [] if rel == "." else rel.split(os.sep)
+                                    dirs.add("/".join(segs))
+                                    try:
+                                        sub = fastparquet.ParquetFile(os.path.join(root, f)).to_pandas()
+                                    except Exception as e:
+                                        bad("part_unreadable", "%s: %s/%s: %s" % (what, rel, f, e))
+                                        continue
+                                    for r in O.series_to_list(sub["rid"]):
+                                        on_disk.append(r)
+                                        if r not in exp_rows:
+                                            bad("placement", "%s: row %d with a null key is stored in %s" % (what, r, rel))
+                                            continue
+                                        sel = keep["rid"] == r
+                                        want = [("%s=%s" % (c, key_text(scheme, keep.loc[sel, c].iloc[0]))) if scheme == "hive"
+                                                else key_text(scheme, keep.loc[sel, c].iloc[0]) for c in parts]
+                                        if segs != want:
+                                            bad("placement", "%s: row %d lies in %r, its keys name %r" % (what, r, segs, want))
+                            if sorted(on_disk) != sorted(exp_rows) and not any(s["symptom"] == "placement" and all(
+                                    s.get(k) == v for k, v in ctx.items()) for s in sigs.values()):
+                                # "and nowhere else": the part files together hold every row exactly once
+                                bad("placement", "%s: part files on disk hold rows %r, written %r" % (
+                                    what, sorted(on_disk), sorted(exp_rows)), kind="disk_multiset")
+                            # (4) the order in which the directory names are met on opening (a set in the library)
+                            sweep = any(k in STRISH for k in kinds) and vk == "int64" and vnull == "none" and \
+                                rgo is None and order == "fwd" and (not nullmode or thorough and nullmode == "p1r1") and \
+                                (scheme == "drill" and (prog == "cycle" or thorough) or
+                                 scheme == "hive" and thorough and prog == "cycle")
+                            if sweep and len(dirs) > 1:
+                                orig = fapi._strip_path_tail
+                                for o in dir_orders(dirs, thorough):
+                                    def ordered(paths, _o=o):
+                                        s = orig(paths)
+                                        return [x for x in _o if x in s] + sorted(x for x in s if x not in _o)
+                                    fapi._strip_path_tail = ordered
+                                    try:
+                                        pf2 = fastparquet.ParquetFile(path)
+                                        out2 = pf2.to_pandas()
+                                    except Exception as e:
+                                        bad("read_raised", "%s, directories met as %r: %s: %s" % (
+                                            what, o, type(e).__name__, str(e)[:150]), exc=type(e).__name__, met="permuted")
+                                        continue
+                                    finally:
+                                        fapi._strip_path_tail = orig
+                                    counts["order_reads"] += 1
+                                    verify(pf2, out2, "%s, directories met as %r" % (what, o), df, keep, exp_rows, expval,
+                                           parts, kinds, met="permuted")
     ok = not sigs
-    return {"ok": ok, "outcome": "preserved" if ok else "differs", "nontrivial": datasets > 0,
-            "counts": {"datasets": datasets}, "sig": list(sigs.values()) or None, "detail": detail[0]}
+    return {"ok": ok, "outcome": "preserved" if ok else "differs", "nontrivial": counts["datasets"] > 0,
+            "counts": counts, "sig": list(sigs.values()) or None, "detail": detail[0]}
 
 
-LEVEL_TEXT = ("Bounded-exhaustive lattice over partition-column kinds (int, float, bool, timestamps incl. sub-second, text "
-              "incl. numeric-/boolean-/date-looking text, categoricals with unused categories) x one or two (three) levels x "
-              "key subsets x assignment programs (incl. keys that first appear in a later row group) x row-group splits "
-              "x hive/drill x value kinds x null keys; checks placement of every row on disk, the multiset of rows read "
-              "back, the values and value kinds of the reconstructed partition columns, and pf.cats.")
+LEVEL_TEXT = ("Bounded-exhaustive lattice over partition-column kinds (int, float, bool, timestamps incl. sub-second, "
+              "nanosecond, second-resolution beyond the ns range and zone-aware ones, text incl. numeric-/boolean-/"
+              "date-looking text, the pandas str dtype and unusual path characters, nullable and unsigned integers, "
+              "categoricals with unused categories) x one or two (three) levels x key subsets x assignment programs "
+              "(incl. keys that first appear in a later row group) x row-group splits x hive/drill x value kinds "
+              "with and without NULLs x null keys at either level or filling a row group x index labels x "
+              "partition_on order x partition column names x the order in which directory names are met; checks "
+              "placement of every row on disk (each row exactly once), the multiset of rows read back, the names, "
+              "values, value kinds and dtype kinds of the reconstructed partition columns, and pf.cats.")
 LEVEL_NOTE = ("Trusted: pandas for building the frames. Six rows per frame; key pools are fixed boundary values; keys that "
               "coerce to the same value are outside the documented domain.")
 TECHNIQUE = "bounded exhaustive enumeration of partition key types x values x layouts, placement + multiset + value-kind oracle"
